@@ -5,6 +5,7 @@ import (
 	"go/ast"
 	"go/token"
 	"go/types"
+	"os"
 	"strings"
 )
 
@@ -274,12 +275,58 @@ func (ex *Exec) rootLvalue(e ast.Expr) *lval {
 // ---- statements ----
 
 func (ex *Exec) execBlock(stmts []ast.Stmt) {
-	for _, s := range stmts {
+	for i, s := range stmts {
 		if ex.st.dead {
+			return
+		}
+		// "L: ...; goto L" (backward jump within one block): the statements from L to the end of the block form a loop
+		// whose iterations are started by goto L; falling off the end leaves it.
+		if ls, ok := s.(*ast.LabeledStmt); ok && gotoTargetIn(stmts[i:], ls.Label.Name) {
+			body := append([]ast.Stmt{ls.Stmt}, stmts[i+1:]...)
+			body = append(body, &ast.BranchStmt{TokPos: ls.End(), Tok: token.BREAK})
+			lp := &loopParts{pos: ls.Pos(), text: ls.Label.Name + ":", body: body, scopePos: ls.Stmt.Pos()}
+			lp.cond = func() *T { return True }
+			savedGoto := ex.gotoHandler
+			name := ls.Label.Name
+			ex.gotoHandler = func(label string) {
+				if label != name {
+					if savedGoto != nil {
+						savedGoto(label)
+					} else {
+						ex.errorf("out of subset: goto %s", label)
+					}
+					return
+				}
+				lf := ex.findLoop(name, true)
+				if lf == nil {
+					ex.errorf("goto %s outside its block", label)
+					return
+				}
+				lf.continues = append(lf.continues, ex.st.clone())
+				ex.st.dead = true
+				ex.st.pc = False
+			}
+			ex.pendingLabel = name
+			ex.execLoop(lp)
+			ex.gotoHandler = savedGoto
 			return
 		}
 		ex.execStmt(s)
 	}
+}
+
+// gotoTargetIn reports whether some goto in stmts jumps to label.
+func gotoTargetIn(stmts []ast.Stmt, label string) bool {
+	found := false
+	for _, s := range stmts {
+		ast.Inspect(s, func(n ast.Node) bool {
+			if b, ok := n.(*ast.BranchStmt); ok && b.Tok == token.GOTO && b.Label != nil && b.Label.Name == label {
+				found = true
+			}
+			return !found
+		})
+	}
+	return found
 }
 
 func (ex *Exec) execStmt(s ast.Stmt) {
@@ -355,10 +402,14 @@ func (ex *Exec) execStmt(s ast.Stmt) {
 	case *ast.DeferStmt:
 		ex.execDefer(s)
 	case *ast.GoStmt:
-		ex.unmodelled["go statement at "+ex.posString(s.Pos())+" (goroutine body not part of the sequential semantics)"] = true
+		ex.execGo(s)
 	case *ast.EmptyStmt:
-	case *ast.SelectStmt, *ast.SendStmt:
-		ex.errorf("out of subset: %T", s)
+	case *ast.SendStmt:
+		ex.eval(s.Chan)
+		ex.eval(s.Value)
+		ex.assumptions["channels: a send has no effect on the modelled state"] = true
+	case *ast.SelectStmt:
+		ex.execSelect(s)
 	default:
 		ex.errorf("unsupported statement %T", s)
 	}
@@ -415,7 +466,15 @@ func (ex *Exec) evalMulti(e ast.Expr, n int) []Val {
 		}
 	case *ast.UnaryExpr:
 		if x.Op == token.ARROW {
-			ex.errorf("out of subset: channel receive")
+			ex.eval(x.X)
+			ct, _ := ex.typeOf(x.X).Underlying().(*types.Chan)
+			var et types.Type = typInt
+			if ct != nil {
+				et = ct.Elem()
+			}
+			ex.assumptions["channels: a received value is arbitrary (what was sent is not tracked)"] = true
+			ok := ex.fresh("recvok", SBool)
+			return []Val{ex.havocTyped(et, "recv"), {ok, types.Typ[types.Bool]}}
 		}
 	}
 	ex.errorf("unsupported multi-value expression %s", exprString(e))
@@ -1021,10 +1080,17 @@ func (ex *Exec) execLoop(lp *loopParts) {
 			return
 		}
 		for i, c := range ls.lc.Invariants {
-			g := ex.specBool(sc, c)
+			g, ok := ex.specTry(sc, c)
 			lab := c.Label
 			if lab == "" {
 				lab = fmt.Sprint(i + 1)
+			}
+			if !ok {
+				// the invariant names something the code no longer has: nothing to assume; as an obligation it fails
+				if kind == "assume" || (c.FromBase && ex.skipSafety) || ex.quiet > 0 {
+					continue
+				}
+				lab += ":not-evaluable"
 			}
 			if kind == "assume" || (c.FromBase && ex.skipSafety) {
 				ex.assume(g)
@@ -1215,6 +1281,14 @@ func (ex *Exec) execRange(s *ast.RangeStmt) {
 			ex.errorf("out of subset: range over %s", xt)
 			return
 		}
+	case *types.Chan:
+		ex.eval(s.X)
+		ex.assumptions["channels: a received value is arbitrary (what was sent is not tracked)"] = true
+		ex.execRangeArbitrary(s, []types.Type{u.Elem()}, nil)
+		return
+	case *types.Signature:
+		ex.execRangeFunc(s, u)
+		return
 	default:
 		ex.errorf("out of subset: range over %s", xt)
 		return
@@ -1278,4 +1352,244 @@ func (ex *Exec) boxedStructRef(x ast.Expr) (*T, bool) {
 		return nil, false
 	}
 	return ref, true
+}
+
+// execGo handles "go f(...)". When f is a function literal its body is executed once, from the state at the go
+// statement (thread-modular, no interference: what other goroutines do to shared memory in the meantime is not modelled),
+// so that the obligations inside goroutine bodies are generated; the effects of the body are then discarded and the
+// parent continues from the state it had.
+func (ex *Exec) execGo(s *ast.GoStmt) {
+	lit, ok := ast.Unparen(s.Call.Fun).(*ast.FuncLit)
+	if !ok || ex.fc == nil || !ex.fc.GoBodies {
+		ex.unmodelled["go statement at "+ex.posString(s.Pos())+" (goroutine body not part of the sequential semantics)"] = true
+		return
+	}
+	ex.assumptions["goroutine bodies are verified one by one from the state at their go statement: no interference on shared memory, variables captured by a goroutine are not reassigned afterwards"] = true
+	saved := ex.st
+	ex.st = saved.clone()
+	var args []Val
+	for _, a := range s.Call.Args {
+		args = append(args, ex.eval(a))
+	}
+	sig, _ := ex.typeOf(lit).(*types.Signature)
+	if sig != nil {
+		savedHook := ex.exitHook
+		ex.exitHook = nil
+		ex.inlineBody("go@"+ex.posString(lit.Pos()), sig, lit.Type, lit.Body, nil, nil, args, ex.pkg, ex.curContract(), false)
+		ex.exitHook = savedHook
+	}
+	ex.st = saved
+}
+
+// execSelect executes every communication clause from the state before the select (the choice is arbitrary).
+func (ex *Exec) execSelect(s *ast.SelectStmt) {
+	base := ex.st
+	choice := ex.fresh("select", SInt)
+	var outs []*State
+	lf := &loopFrame{isSwitch: true}
+	ex.loops = append(ex.loops, lf)
+	for i, c := range s.Body.List {
+		cc := c.(*ast.CommClause)
+		st := ex.branch(base, Eq(choice, I(int64(i))), func() {
+			if cc.Comm != nil {
+				ex.execStmt(cc.Comm)
+			}
+			ex.execBlock(cc.Body)
+		})
+		outs = append(outs, st)
+	}
+	ex.loops = ex.loops[:len(ex.loops)-1]
+	outs = append(outs, lf.breaks...)
+	ex.st = ex.merge(outs)
+	ex.assume(And(Le(I(0), choice), Lt(choice, I(int64(len(s.Body.List))))))
+}
+
+// bindRangeVar binds a range variable (define or assign).
+func (ex *Exec) bindRangeVar(s *ast.RangeStmt, e ast.Expr, v Val) {
+	if e == nil {
+		return
+	}
+	id, ok := e.(*ast.Ident)
+	if ok && id.Name == "_" {
+		return
+	}
+	if s.Tok == token.DEFINE && ok {
+		ex.define(id, v)
+		return
+	}
+	ex.store(ex.lvalue(e), v)
+}
+
+// execRangeArbitrary: a loop that runs an arbitrary number of times with arbitrary well-typed values for its variables
+// (range over a channel, or over a sequence produced by a callee); assume adds what is known about the values.
+func (ex *Exec) execRangeArbitrary(s *ast.RangeStmt, elems []types.Type, assume func(vals []Val)) {
+	lp := &loopParts{pos: s.Pos(), text: "range " + exprString(s.X), body: s.Body.List, scopePos: s.Body.Lbrace}
+	lp.cond = func() *T { return ex.fresh("more", SBool) }
+	lp.bodyPre = func() {
+		var vals []Val
+		for _, t := range elems {
+			vals = append(vals, ex.havocTyped(t, "item"))
+		}
+		if assume != nil {
+			assume(vals)
+		}
+		if len(vals) > 0 {
+			ex.bindRangeVar(s, s.Key, vals[0])
+		}
+		if len(vals) > 1 {
+			ex.bindRangeVar(s, s.Value, vals[1])
+		}
+	}
+	ex.execLoop(lp)
+}
+
+// execRangeFunc: "for x := range seq". When seq is a function literal of the function under verification the loop is
+// executed as Go defines it: the literal's body runs with a yield that executes the loop body (break makes yield return
+// false). Otherwise (a sequence returned by a callee) the loop runs an arbitrary number of times with arbitrary values
+// that satisfy those requires-clauses of the callee's yield contract that can be evaluated in the caller.
+func (ex *Exec) execRangeFunc(s *ast.RangeStmt, sig *types.Signature) {
+	if sig.Params().Len() != 1 {
+		ex.errorf("out of subset: range over %s", sig)
+		return
+	}
+	ysig, _ := sig.Params().At(0).Type().Underlying().(*types.Signature)
+	if ysig == nil {
+		ex.errorf("out of subset: range over %s", sig)
+		return
+	}
+	var elems []types.Type
+	for i := 0; i < ysig.Params().Len(); i++ {
+		elems = append(elems, ysig.Params().At(i).Type())
+	}
+	hasReturn := false
+	ast.Inspect(s.Body, func(n ast.Node) bool {
+		if _, ok := n.(*ast.FuncLit); ok {
+			return false
+		}
+		if _, ok := n.(*ast.ReturnStmt); ok {
+			hasReturn = true
+		}
+		return true
+	})
+	// the callee, if the operand is a call of a contracted function
+	var callFC *FuncContract
+	var callArgs []Val
+	var callNames []string
+	if call, ok := ast.Unparen(s.X).(*ast.CallExpr); ok {
+		if fn := ex.calleeOf(call); fn != nil {
+			if fc := ex.prog.contracts.Funcs[ex.contractKey(fn)]; fc != nil && fc.IterBody {
+				callFC = fc
+				fsig := fn.Type().(*types.Signature)
+				if sel, ok := call.Fun.(*ast.SelectorExpr); ok && fsig.Recv() != nil {
+					callArgs = append(callArgs, ex.eval(sel.X))
+					callNames = append(callNames, fsig.Recv().Name())
+				}
+				for i, a := range call.Args {
+					callArgs = append(callArgs, ex.eval(a))
+					if i < fsig.Params().Len() {
+						callNames = append(callNames, fsig.Params().At(i).Name())
+					}
+				}
+			}
+		}
+	}
+	if callFC == nil {
+		seq := ex.eval(s.X)
+		if os.Getenv("GOVC_DEBUG") != "" {
+			fmt.Fprintf(os.Stderr, "rangefunc %s: seq=%s known=%v hasReturn=%v\n", exprString(s.X), seq.T.String(), ex.closures[seq.T.String()] != nil, hasReturn)
+		}
+		if c, ok := ex.closures[seq.T.String()]; ok && c.lit != nil && !hasReturn {
+			ex.runProducer(s, c, sig, elems)
+			return
+		}
+		ex.execRangeArbitrary(s, elems, nil)
+		return
+	}
+	pc := callFC.Params["yield"]
+	ex.assumptions["a sequence returned by "+callFC.Key+" yields values that satisfy the requires-clauses of its yield contract (proved where the sequence is defined)"] = true
+	ex.execRangeArbitrary(s, elems, func(vals []Val) {
+		if pc == nil {
+			return
+		}
+		for _, c := range pc.Requires {
+			usesGhost := false
+			for g := range ex.prog.contracts.Ghosts {
+				if strings.Contains(c.Text, g+"(") {
+					usesGhost = true
+				}
+			}
+			if usesGhost {
+				continue
+			}
+			sc := &specCtx{ex: ex, st: ex.st, vars: map[string]Val{}, stateVars: map[string]stateVar{}, pkg: ex.pkgTypes(callFC.Pkg), where: c.Line}
+			for i, n := range callNames {
+				if n != "" && i < len(callArgs) {
+					sc.vars[n] = callArgs[i]
+				}
+			}
+			for i, n := range pc.Params {
+				if i < len(vals) {
+					sc.vars[n] = vals[i]
+				}
+			}
+			nerr := len(ex.errs)
+			g := ex.specBool(sc, c)
+			if len(ex.errs) > nerr {
+				// the clause names something of the callee's body: not usable here
+				ex.errs = ex.errs[:nerr]
+				continue
+			}
+			ex.assume(g)
+		}
+	})
+}
+
+// runProducer executes a sequence literal with a yield that runs the loop body.
+func (ex *Exec) runProducer(s *ast.RangeStmt, c *closure, sig *types.Signature, elems []types.Type) {
+	lf := &loopFrame{label: ex.pendingLabel}
+	ex.pendingLabel = ""
+	yv := ex.fresh("clo", SInt)
+	ex.assume(Lt(I(0), yv))
+	resKey := fmt.Sprintf("$yield.%s", yv.String())
+	ex.heapSort[resKey] = SBool
+	ex.closures[yv.String()] = &closure{name: "yield", native: func(args []Val) []Val {
+		ex.loops = append(ex.loops, lf)
+		nb, nc := len(lf.breaks), len(lf.continues)
+		if len(args) > 0 {
+			ex.bindRangeVar(s, s.Key, args[0])
+		}
+		if len(args) > 1 {
+			ex.bindRangeVar(s, s.Value, args[1])
+		}
+		ex.execBlock(s.Body.List)
+		ex.loops = ex.loops[:len(ex.loops)-1]
+		var outs []*State
+		if !ex.st.dead {
+			ex.st.env[resKey] = True
+			outs = append(outs, ex.st)
+		}
+		for _, st := range lf.continues[nc:] {
+			st.env[resKey] = True
+			outs = append(outs, st)
+		}
+		for _, st := range lf.breaks[nb:] {
+			st.env[resKey] = False
+			outs = append(outs, st)
+		}
+		lf.continues = lf.continues[:nc]
+		lf.breaks = lf.breaks[:nb]
+		ex.st = ex.merge(outs)
+		r := ex.get(ex.st, resKey)
+		if r == nil {
+			r = True
+		}
+		delete(ex.st.env, resKey)
+		return []Val{{r, types.Typ[types.Bool]}}
+	}}
+	name := c.name
+	if name == "" {
+		name = "seq"
+	}
+	ex.inlineBody("rangefunc:"+name+"@"+ex.posString(s.Pos()), sig, c.lit.Type, c.lit.Body, nil, nil, []Val{{yv, sig.Params().At(0).Type()}}, ex.pkg, ex.curContract(), false)
+	delete(ex.closures, yv.String())
 }
